@@ -455,17 +455,22 @@ def mon_c15(h, outs):
 
 
 # ------------------------------------------------------------------ C14
-_APPLIES = {}
+# "Applies to Object Types" of the filter attributes the property lists, written down from the KMIP specification
+# (1 Certificate, 2 Symmetric Key, 3 Public Key, 4 Private Key, 5 Split Key, 6 Template, 7 Secret Data, 8 Opaque
+# Object) - NOT read from kmip/services/server/policy.py: the oracle must not share the table it judges
+# (the same constants are a `decide` obligation over the regenerated table in lean/KmipModel/Props/C14Table.lean)
+_ALL_OT = {1, 2, 3, 4, 5, 6, 7, 8}
+SPEC_APPLIES = {
+    "Unique Identifier": _ALL_OT, "Name": _ALL_OT, "Object Type": _ALL_OT,
+    "Cryptographic Algorithm": {1, 2, 3, 4, 5, 6}, "Cryptographic Length": {1, 2, 3, 4, 5, 6},
+    "Certificate Type": {1}, "Cryptographic Usage Mask": {1, 2, 3, 4, 5, 6, 7}, "State": {1, 2, 3, 4, 5, 7},
+    "Initial Date": _ALL_OT, "Operation Policy Name": _ALL_OT, "Object Group": _ALL_OT,
+    "Application Specific Information": _ALL_OT, "Sensitive": _ALL_OT,
+}
 
 
 def applies_to(name):
-    if not _APPLIES:
-        from kmip.services.server import policy as sp
-        from kmip.core.messages import contents
-        ap = sp.AttributePolicy(contents.ProtocolVersion(2, 0))
-        for n, r in ap._attribute_rule_sets.items():
-            _APPLIES[n] = set(t.value for t in r.applies_to_object_types)
-    return _APPLIES.get(name)
+    return SPEC_APPLIES.get(name)
 
 
 LISTED = {"Name", "State", "Object Type", "Cryptographic Algorithm", "Cryptographic Length",
